@@ -9,7 +9,7 @@ from vf.ref import coerce as C
 from vf import gqlfront
 
 META = {
-    "bounds": "schema X (vf/world.py) in 6 engine configurations (default/explicit resolvers, non-null layout, type resolvers, sequential coercion); 14 document templates, selection depth <= 4, lists of length 0..2, "
+    "bounds": "schema X (vf/world.py) in 6 engine configurations (default/explicit resolvers, non-null layout, type resolvers, sequential coercion); 16 document templates, selection depth <= 4, lists of length 0..2, "
               "<= 3 fragments; leaves: unbounded int / Optional[int] / Optional[bool] / opaque str (len <= 2)",
     "outside": "documents outside the template catalogue; list length > 2; Float leaves symbolic (C10); message wording",
     "explanation": "Oracle: vf/ref/execute.py (CollectFields/ExecuteSelectionSet/CompleteValue written from the spec text) run on the same symbolic values.",
@@ -45,6 +45,8 @@ TEMPLATES = {
     "T11": "{ us { __typename ... on A { n color } ... on B { flag } } a { peer { id ... on B { flag } __typename } color } color }",
     "T12": "{ mid { leaf { my i f b } leaves { my } } }",
     "T13": "mutation { a: set(v: 1) other b: set(v: 2) deep { leaf { n } leaves { n } } }",
+    "T15": "{ nodes { owner { n } ... on A { owner { s n } } ... on B { owner { b } } } us { ... on A { owner { n } } ... on Node { owner { s } } } }",
+    "T16": "{ mid { ...F } m2: mid { ...F ...G } m3: mid { ...G } } fragment F on Mid { leaf { n } } fragment G on Mid { leaf { s } n }",
     "T14": "query Q($s: Boolean!) { u { ... on A { n } ... on B { flag } ... on U { __typename } } node { ... on Node { id } ... on B @skip(if: $s) { flag } } }",
 }
 ASTS = {k: gqlfront.parse(v) for k, v in TEMPLATES.items()}
@@ -62,7 +64,7 @@ warm()
 
 ROOT_KEYS = {
     "T01": "n nn", "T02": "n nn", "T03": "n mid", "T04": "n nn mid", "T05": "mids", "T06": "n mid", "T07": "n nn mid",
-    "T08": "node u nodes", "T09": "n nn", "T10": "", "T11": "us a color", "T12": "mid", "T13": "other deep", "T14": "u node",
+    "T08": "node u nodes", "T09": "n nn", "T10": "", "T11": "us a color", "T12": "mid", "T13": "other deep", "T14": "u node", "T15": "us nodes", "T16": "mid",
 }
 
 
@@ -86,13 +88,13 @@ class LazyP:
         return v
 
 
-def mkdata(P, tn, tres, keys):
+def mkdata(P, tn, tres, keys, mixed=False):
     def node(is_a, depth):
         tname = "A" if is_a else "B"
         if is_a:
-            d = {"id": "a%d" % depth, "n": P["n"], "color": "RED", "peer": node(not is_a, depth + 1) if depth < 1 else None}
+            d = {"id": "a%d" % depth, "n": P["n"], "color": "RED", "peer": node(not is_a, depth + 1) if depth < 1 else None, "owner": leaf()}
         else:
-            d = {"id": 7, "flag": P["flag"]}
+            d = {"id": 7, "flag": P["flag"], "owner": leaf()}
         if tres:
             # three independent namings: the oracle picks the one the position calls for
             d["tr_node"] = tname
@@ -117,7 +119,8 @@ def mkdata(P, tn, tres, keys):
             return world.Obj({"leaf": lf, "leaves": [lf] * P["nlen"], "n": P["m"]})
         return {"leaf": lf, "leaves": [lf] * P["nlen"], "n": P["m"]}
     mk = {
-        "node": lambda: node(P["t1"], 0), "u": lambda: node(P["t2"], 0), "nodes": lambda: [node(P["t3"], 0)] * P["nlen"],
+        "node": lambda: node(P["t1"], 0), "u": lambda: node(P["t2"], 0),
+        "nodes": lambda: ([node(P["t3"], 0)] * P["nlen"]) if not mixed else [node(P["t3"], 0), node(not P["t3"], 0)][:P["nlen"]],
         "us": lambda: [node(P["t1"], 0), node(not P["t1"], 0)][:P["nlen"]], "a": lambda: node(True, 0), "color": lambda: "GREEN",
         "mid": mid, "mids": lambda: [mid()] * P["nlen"], "n": lambda: P["n"], "nn": lambda: P["m"], "deep": mid,
         "other": lambda: P["m"],
@@ -174,6 +177,8 @@ for t in TEMPLATES:
     kinds = ["univ", "plain"]
     if t in ("T08", "T11", "T14"):
         kinds = ["univ", "plain", "tres", "plain_tres"]
+    if t in ("T15", "T16"):
+        kinds = ["univ", "plain", "seq"]
     if t in ("T03", "T05", "T12"):
         kinds = ["univ", "plain", "univ_nn"]
     if t in ("T05", "T08", "T13", "T06"):
@@ -218,7 +223,7 @@ QUICK = [i for i, s in enumerate(SHARDS) if (s["eng"] in ("univ",) and s["tn"] =
             symbolic=["n: Optional[int] (unbounded)", "m: int (unbounded)", "flag: Optional[bool]", "st: str (all strings)", "v: Optional[int]",
                       "s, i: bool via real variable coercion and the real @skip/@include hooks"],
             selectors=["t1,t2,t3: runtime type of node/u/nodes", "nlen: list length 0..2", "shard: template, engine kind, type-naming way, operation name"],
-            bounds="templates T01-T14 x engines {univ, plain, univ_nn, tres, plain_tres, seq} x 3 type-naming ways",
+            bounds="templates T01-T16 x engines {univ, plain, univ_nn, tres, plain_tres, seq} x 3 type-naming ways",
             note="real Engine.execute vs reference executor: data incl. key order, error accounting, resolver call log")
 def c01_exec(s: bool, i: bool, t1: bool, t2: bool, t3: bool, n: Optional[int], m: int, flag: Optional[bool], st: str,
              v: Optional[int], nlen: int) -> bool:
@@ -229,7 +234,7 @@ def c01_exec(s: bool, i: bool, t1: bool, t2: bool, t3: bool, n: Optional[int], m
     kind = sh["eng"]; tmpl = sh["tmpl"]; tn = sh["tn"]
     P = LazyP({"n": n, "m": m, "flag": flag, "st": st, "v": v, "nlen": nlen, "t1": t1, "t2": t2, "t3": t3, "which": 0}, sh)
     tres = kind in ("tres", "plain_tres")
-    data = mkdata(P, tn, tres, ROOT_KEYS[tmpl])
+    data = mkdata(P, tn, tres, ROOT_KEYS[tmpl], mixed=(tmpl == "T15"))
     s = sh.get("s", s); i = sh.get("i", i)
     variables = {"s": s, "i": i, "v": v, "w": n}
     if tmpl == "T10" and n is None:
